@@ -1,19 +1,18 @@
 (** Fingerprints and isomorphism of the reachable function graph.
 
     [fingerprint_deterministic_lemma]: isomorphic reachable parts give equal fingerprints (any two graphs, any fuel, any
-    unreachable rest).  [fingerprint_sensitive_lemma]: equal fingerprints give isomorphic reachable parts, provided that
-    within each reachable part a function's name identifies it -- the placeholder for a function in progress and the
-    model's memo reference carry only the name.  [fingerprint_sensitive_refuted_lemma]: without that proviso the statement
-    is false of the model. *)
+    unreachable rest).  [fingerprint_sensitive_lemma]: equal fingerprints give isomorphic reachable parts -- references
+    to functions in progress and to finished functions carry the ordinal of the function referred to, so the two walks
+    can be paired request by request. *)
 From Coq Require Import Arith Wf_nat.
 From Dawn Require Import Fingerprint.Model Fingerprint.Proofs.
 
 (** ** what one step of [walk] does with the first mention *)
 Inductive head (g : graph) (s : st) (f : N) : nat -> tree -> st -> Prop :=
 | h_unknown fuel : lookup f g = None -> head g s f fuel TUnknown s
-| h_ref fuel fd : lookup f g = Some fd -> mem f (finished s) = true -> head g s f fuel (TRef (f_name fd)) s
+| h_ref fuel fd : lookup f g = Some fd -> mem f (finished s) = true -> head g s f fuel (TRef (f_name fd) (ordinal f (asked s))) s
 | h_rec fuel fd : lookup f g = Some fd -> mem f (finished s) = false -> mem f (asked s) = true ->
-                  head g s f fuel (TRec (f_name fd)) s
+                  head g s f fuel (TRec (f_name fd) (ordinal f (asked s))) s
 | h_fun fuel fd ch s1 : lookup f g = Some fd -> mem f (finished s) = false -> mem f (asked s) = false ->
                   walk fuel g (mkSt (f :: asked s) (finished s)) (f_mentions fd) = Done ch s1 ->
                   head g s f (S fuel) (TFun (f_name fd) (f_code fd) ch) (mkSt (asked s1) (f :: finished s1)).
@@ -26,10 +25,10 @@ Proof.
   destruct (lookup f g) as [fd|] eqn:Hl.
   - destruct (mem f (finished s)) eqn:Hf.
     { destruct (walk fuel g s rest) as [ts0 s0|] eqn:E; [|discriminate]. inversion H; subst.
-      exists (TRef (f_name fd)), ts0, s. repeat split; [econstructor; eassumption|exact E]. }
+      exists (TRef (f_name fd) (ordinal f (asked s))), ts0, s. repeat split; [econstructor; eassumption|exact E]. }
     destruct (mem f (asked s)) eqn:Ha.
     { destruct (walk fuel g s rest) as [ts0 s0|] eqn:E; [|discriminate]. inversion H; subst.
-      exists (TRec (f_name fd)), ts0, s. repeat split; [econstructor; eassumption|exact E]. }
+      exists (TRec (f_name fd) (ordinal f (asked s))), ts0, s. repeat split; [econstructor; eassumption|exact E]. }
     destruct fuel as [|fuel]; [discriminate|].
     destruct (walk fuel g (mkSt (f :: asked s) (finished s)) (f_mentions fd)) as [ch s1|] eqn:Ech; [|discriminate].
     destruct (walk (S fuel) g (mkSt (asked s1) (f :: finished s1)) rest) as [ts0 s0|] eqn:E; [|discriminate].
@@ -60,11 +59,6 @@ Record iso (g1 g2 : graph) (r1 r2 : N) (R : N -> N -> Prop) : Prop := {
   iso_fun : forall x y y', R x y -> R x y' -> lookup x g1 <> None -> y = y';
   iso_inj : forall x x' y, R x y -> R x' y -> lookup y g2 <> None -> x = x'
 }.
-
-(** within the part reachable from [r], a function's name identifies it *)
-Definition names_identify (g : graph) (r : N) : Prop :=
-  forall x y fx fy, reach g r x -> reach g r y -> lookup x g = Some fx -> lookup y g = Some fy ->
-                    f_name fx = f_name fy -> x = y.
 
 (** an isomorphism relates every reachable function of the first graph to a reachable one of the second *)
 Lemma iso_total g1 g2 r1 r2 R : iso g1 g2 r1 r2 R ->
@@ -120,6 +114,19 @@ Section Det.
       exfalso. apply Hne. apply (R_inj _ _ _ Hff Hab). apply (R_res _ _ Hab Ha).
   Qed.
 
+  Lemma ordinal_agree f f' l1 l2 :
+    R f f' -> lookup f g1 <> None -> Forall2 R l1 l2 -> resolvable g1 l1 -> ordinal f l1 = ordinal f' l2.
+  Proof.
+    intros Hff Hres F. induction F as [|a b la lb Hab F IH]; intros Hl; [reflexivity|].
+    cbn [ordinal]. rewrite IH by (intros x Hx; apply Hl; right; exact Hx).
+    assert (EL : length la = length lb) by (clear -F; induction F; simpl; congruence). rewrite EL.
+    assert (Ha : lookup a g1 <> None) by (apply Hl; left; reflexivity).
+    destruct (N.eqb_spec f a) as [->|Hne].
+    - rewrite (R_fun _ _ _ Hff Hab Hres), N.eqb_refl. reflexivity.
+    - destruct (N.eqb_spec f' b) as [->|Hne']; [|reflexivity].
+      exfalso. apply Hne. apply (R_inj _ _ _ Hff Hab). apply (R_res _ _ Hab Ha).
+  Qed.
+
   Lemma det fuel1 : forall fuel2 fs1 fs2 s1 s2 ts1 s1' ts2 s2',
     walk fuel1 g1 s1 fs1 = Done ts1 s1' -> walk fuel2 g2 s2 fs2 = Done ts2 s2' ->
     srel s1 s2 -> Forall2 R fs1 fs2 -> ts1 = ts2 /\ srel s1' s2'.
@@ -142,13 +149,15 @@ Section Det.
           pose proof (mem_agree f f' _ _ Hff Hres Sf Rf) as Ef.
           destruct Hh2 as [fu2 L2|fu2 fd2 L2 F2|fu2 fd2 L2 F2 A2|fu2 fd2 ch2 sb2 L2 F2 A2 W2];
             rewrite L2 in A; try contradiction; try congruence.
-          destruct A as (En & _). rewrite En. split; [reflexivity|constructor; assumption].
+          destruct A as (En & _). rewrite En, (ordinal_agree f f' _ _ Hff Hres Sa Ra).
+          split; [reflexivity|constructor; assumption].
         - assert (Hres : lookup f g1 <> None) by congruence.
           pose proof (mem_agree f f' _ _ Hff Hres Sf Rf) as Ef.
           pose proof (mem_agree f f' _ _ Hff Hres Sa Ra) as Ea.
           destruct Hh2 as [fu2 L2|fu2 fd2 L2 F2|fu2 fd2 L2 F2 A2|fu2 fd2 ch2 sb2 L2 F2 A2 W2];
             rewrite L2 in A; try contradiction; try congruence.
-          destruct A as (En & _). rewrite En. split; [reflexivity|constructor; assumption].
+          destruct A as (En & _). rewrite En, (ordinal_agree f f' _ _ Hff Hres Sa Ra).
+          split; [reflexivity|constructor; assumption].
         - assert (Hres : lookup f g1 <> None) by congruence.
           pose proof (mem_agree f f' _ _ Hff Hres Sf Rf) as Ef.
           pose proof (mem_agree f f' _ _ Hff Hres Sa Ra) as Ea.
@@ -231,15 +240,32 @@ Proof.
     + inversion Hnd; subst. apply (IH l2); assumption.
 Qed.
 
+Lemma ordinal_lt f l : In f l -> (N.to_nat (ordinal f l) < length l)%nat.
+Proof.
+  induction l as [|a l IH]; intros H; [destruct H|]. cbn [ordinal length].
+  destruct (N.eqb_spec f a) as [->|Hne]; [rewrite Nat2N.id; lia|].
+  destruct H as [->|H]; [contradiction|]. specialize (IH H). lia.
+Qed.
+
+Lemma ordinal_pair (l1 l2 : list N) f f' :
+  length l1 = length l2 -> In f l1 -> In f' l2 -> ordinal f l1 = ordinal f' l2 -> In (f, f') (combine l1 l2).
+Proof.
+  revert l2. induction l1 as [|a l1 IH]; intros [|b l2] Hlen H H' E; try discriminate; [destruct H|].
+  cbn [ordinal] in E. cbn [combine]. cbn [length] in Hlen. apply eq_add_S in Hlen.
+  destruct (N.eqb_spec f a) as [->|Hne], (N.eqb_spec f' b) as [->|Hne'].
+  - left; reflexivity.
+  - exfalso. destruct H' as [->|H']; [contradiction|]. pose proof (ordinal_lt f' l2 H') as L.
+    rewrite <- E, Nat2N.id in L. lia.
+  - exfalso. destruct H as [->|H]; [contradiction|]. pose proof (ordinal_lt f l1 H) as L.
+    rewrite E, Nat2N.id in L. lia.
+  - right. destruct H as [->|H]; [contradiction|]. destruct H' as [->|H']; [contradiction|]. apply IH; assumption.
+Qed.
+
 Section Sens.
   Variables g1 g2 : graph.
   Variables D1 D2 : N -> Prop.
   Hypothesis D1_closed : forall x fd m, D1 x -> lookup x g1 = Some fd -> In m (f_mentions fd) -> lookup m g1 <> None -> D1 m.
   Hypothesis D2_closed : forall x fd m, D2 x -> lookup x g2 = Some fd -> In m (f_mentions fd) -> lookup m g2 <> None -> D2 m.
-  Hypothesis D1_names : forall x y fx fy, D1 x -> D1 y -> lookup x g1 = Some fx -> lookup y g1 = Some fy ->
-                                          f_name fx = f_name fy -> x = y.
-  Hypothesis D2_names : forall x y fx fy, D2 x -> D2 y -> lookup x g2 = Some fx -> lookup y g2 = Some fy ->
-                                          f_name fx = f_name fy -> x = y.
 
   Definition pairs (s1 s2 : st) := combine (asked s1) (asked s2).
   Definition fpairs (s1 s2 : st) := combine (finished s1) (finished s2).
@@ -250,8 +276,6 @@ Section Sens.
     i_len : length (asked s1) = length (asked s2);
     i_flen : length (finished s1) = length (finished s2);
     i_fa : forall p, In p (fpairs s1 s2) -> In p (pairs s1 s2);
-    i_names : forall x y, In (x, y) (pairs s1 s2) ->
-                exists a b, lookup x g1 = Some a /\ lookup y g2 = Some b /\ f_name a = f_name b;
     i_D : forall x y, In (x, y) (pairs s1 s2) -> D1 x /\ D2 y;
     i_nd1 : NoDup (asked s1);
     i_nd2 : NoDup (asked s2)
@@ -320,19 +344,20 @@ Section Sens.
 
   Definition inD (D : N -> Prop) (g : graph) (fs : list N) : Prop := forall x, In x fs -> lookup x g <> None -> D x.
 
-  (** a mention that resolves to a function named like the partner of an asked one is that partner *)
-  Lemma partner_l s1 s2 f f' fd fd' l1 l2 :
-    inv s1 s2 -> (forall p, In p (combine l1 l2) -> In p (pairs s1 s2)) -> length l1 = length l2 ->
-    In f l1 -> lookup f g1 = Some fd -> lookup f' g2 = Some fd' -> D2 f' -> f_name fd = f_name fd' ->
+  (** two functions asked about at the same position of the two walks are paired *)
+  Lemma partner s1 s2 f f' :
+    inv s1 s2 -> In f (asked s1) -> In f' (asked s2) -> ordinal f (asked s1) = ordinal f' (asked s2) ->
     In (f, f') (pairs s1 s2).
+  Proof. intros I H H' E. exact (ordinal_pair _ _ f f' (i_len _ _ I) H H' E). Qed.
+
+  Lemma fin_asked s1 s2 f f' :
+    inv s1 s2 -> In f (finished s1) -> In f' (finished s2) -> In f (asked s1) /\ In f' (asked s2).
   Proof.
-    intros I Hsub Hlen Hin L1 L2 Hd En.
-    destruct (in_combine_ex_l l1 l2 f Hlen Hin) as (y & Hy). apply Hsub in Hy.
-    destruct (i_names _ _ I _ _ Hy) as (a & b & La & Lb & Eab).
-    destruct (i_D _ _ I _ _ Hy) as (_ & Dy).
-    rewrite L1 in La. inversion La; subst a.
-    assert (y = f') by (apply (D2_names y f' b fd' Dy Hd Lb L2); congruence).
-    subst y. exact Hy.
+    intros I H H'. split.
+    - destruct (in_combine_ex_l _ _ f (i_flen _ _ I) H) as (y & Hy). apply (i_fa _ _ I) in Hy.
+      exact (in_combine_l _ _ _ _ Hy).
+    - destruct (in_combine_ex_r _ _ f' (i_flen _ _ I) H') as (x & Hx). apply (i_fa _ _ I) in Hx.
+      exact (in_combine_r _ _ _ _ Hx).
   Qed.
 
   Ltac split5 := split; [|split; [|split; [|split]]].
@@ -363,15 +388,13 @@ Section Sens.
         - (* both memo references *)
           inversion Hh2 as [fu2 L2 Et|fu2 fd2 L2 F2 Et|fu2 fd2 L2 F2 A2 Et|fu2 fd2 ch2 sb2 L2 F2 A2 W2 Ef Et]; subst.
           split5; [exact I|apply ext_refl| |auto|auto].
-          left. apply (partner_l _ _ f f' fd1 fd2 _ _ I (i_fa _ _ I) (i_flen _ _ I)); auto.
-          + apply mem_In, F1.
-          + apply Hd2; [left; reflexivity|congruence].
+          apply mem_In in F1. apply mem_In in F2. destruct (fin_asked _ _ f f' I F1 F2) as (Q1 & Q2).
+          left. apply (partner _ _ f f' I Q1 Q2). congruence.
         - (* both placeholders *)
           inversion Hh2 as [fu2 L2 Et|fu2 fd2 L2 F2 Et|fu2 fd2 L2 F2 A2 Et|fu2 fd2 ch2 sb2 L2 F2 A2 W2 Ef Et]; subst.
           split5; [exact I|apply ext_refl| |auto|auto].
-          left. apply (partner_l _ _ f f' fd1 fd2 _ _ I (fun p H => H) (i_len _ _ I)); auto.
-          + apply mem_In, A1.
-          + apply Hd2; [left; reflexivity|congruence].
+          apply mem_In in A1. apply mem_In in A2.
+          left. apply (partner _ _ f f' I A1 A2). congruence.
         - (* both expanded *)
           inversion Hh2 as [fu2 L2 Et|fu2 fd2 L2 F2 Et|fu2 fd2 L2 F2 A2 Et|fu2 fd2 ch2 sb2 L2 F2 A2 W2 Ef Et]; subst.
           assert (En : f_name fd1 = f_name fd2) by congruence. assert (Ec : f_code fd1 = f_code fd2) by congruence.
@@ -380,11 +403,10 @@ Section Sens.
           set (sa1 := mkSt (f :: asked s1) (finished s1)) in *.
           set (sa2 := mkSt (f' :: asked s2) (finished s2)) in *.
           assert (Ia : inv sa1 sa2).
-          { destruct I as [I1 I2 I3 I4 I5 I6 I7]. constructor; unfold pairs, fpairs in *; cbn [sa1 sa2 asked finished combine] in *.
+          { destruct I as [I1 I2 I3 I5 I6 I7]. constructor; unfold pairs, fpairs in *; cbn [sa1 sa2 asked finished combine] in *.
             - simpl; lia.
             - exact I2.
             - intros p Hp. right. apply I3, Hp.
-            - intros x y [Hxy|Hxy]; [inversion Hxy; subst; exists fd1, fd2; auto|apply I4, Hxy].
             - intros x y [Hxy|Hxy]; [inversion Hxy; subst; auto|apply I5, Hxy].
             - constructor; [intros Hin; apply mem_In in Hin; congruence|exact I6].
             - constructor; [intros Hin; apply mem_In in Hin; congruence|exact I7]. }
@@ -397,11 +419,10 @@ Section Sens.
           assert (Hff : In (f, f') (pairs sb1 sb2)).
           { apply (ext_pairs _ _ _ _ B2). left; reflexivity. }
           assert (Ic : inv sc1 sc2).
-          { destruct B1 as [I1 I2 I3 I4 I5 I6 I7]. constructor; unfold pairs, fpairs in *; cbn [sc1 sc2 asked finished combine] in *.
+          { destruct B1 as [I1 I2 I3 I5 I6 I7]. constructor; unfold pairs, fpairs in *; cbn [sc1 sc2 asked finished combine] in *.
             - exact I1.
             - simpl; lia.
             - intros p [<-|Hp]; [exact Hff|apply I3, Hp].
-            - exact I4.
             - exact I5.
             - exact I6.
             - exact I7. }
@@ -432,23 +453,22 @@ Section Sens.
   Qed.
 End Sens.
 
-Lemma fingerprint_sensitive_right g1 r1 g2 r2 ts s1 s2 :
-  names_identify g2 r2 ->
+Lemma fingerprint_sensitive_lemma g1 r1 g2 r2 ts s1 s2 :
   fingerprint g1 r1 = Done ts s1 -> fingerprint g2 r2 = Done ts s2 ->
   exists R, iso g1 g2 r1 r2 R /\
             (forall x y, R x y -> lookup x g1 <> None -> reach g1 r1 x /\ reach g2 r2 y).
 Proof.
-  intros N2 E1 E2. unfold fingerprint in E1, E2.
+  intros E1 E2. unfold fingerprint in E1, E2.
   set (D1 := reach g1 r1). set (D2 := reach g2 r2).
   assert (C1 : forall x fd m, D1 x -> lookup x g1 = Some fd -> In m (f_mentions fd) -> lookup m g1 <> None -> D1 m).
   { intros x fd m Hx Hl Hm Hmg. exact (reach_step g1 r1 x fd m Hx Hl Hm Hmg). }
   assert (C2 : forall x fd m, D2 x -> lookup x g2 = Some fd -> In m (f_mentions fd) -> lookup m g2 <> None -> D2 m).
   { intros x fd m Hx Hl Hm Hmg. exact (reach_step g2 r2 x fd m Hx Hl Hm Hmg). }
-  assert (I0 : inv g1 g2 D1 D2 (mkSt [] []) (mkSt [] [])).
-  { constructor; [reflexivity|reflexivity|intros p []|intros x y []|intros x y []|constructor|constructor]. }
+  assert (I0 : inv D1 D2 (mkSt [] []) (mkSt [] [])).
+  { constructor; [reflexivity|reflexivity|intros p []|intros x y []|constructor|constructor]. }
   assert (Hd1 : inD D1 g1 [r1]) by (intros x [<-|[]] Hl; constructor; exact Hl).
   assert (Hd2 : inD D2 g2 [r2]) by (intros x [<-|[]] Hl; constructor; exact Hl).
-  destruct (sync g1 g2 D1 D2 C1 C2 N2 _ _ _ _ _ _ _ _ _ E1 E2 I0 Hd1 Hd2) as [P1 P2 P3 P4 P5].
+  destruct (sync g1 g2 D1 D2 C1 C2 _ _ _ _ _ _ _ _ _ E1 E2 I0 Hd1 Hd2) as [P1 P2 P3 P4 P5].
   assert (G : Good g1 g2 s1 s2) by (apply P4; intros x y []).
   assert (Hfin : forall p, In p (pairs s1 s2) -> In p (fpairs s1 s2)).
   { intros p Hp. destruct (P5 p Hp) as [[]|H]. exact H. }
@@ -461,95 +481,18 @@ Proof.
     + rewrite Hx, Hy. exact I.
   - intros x y y' Hy Hy' Hx.
     pose proof (Hpair _ _ Hy (or_introl Hx)) as Q. pose proof (Hpair _ _ Hy' (or_introl Hx)) as Q'.
-    exact (combine_NoDup_l _ _ _ _ _ (i_nd1 _ _ _ _ _ _ P1) Q Q').
+    exact (combine_NoDup_l _ _ _ _ _ (i_nd1 _ _ _ _ P1) Q Q').
   - intros x x' y Hx Hx' Hy.
     pose proof (Hpair _ _ Hx (or_intror Hy)) as Q. pose proof (Hpair _ _ Hx' (or_intror Hy)) as Q'.
-    exact (combine_NoDup_r _ _ _ _ _ (i_nd2 _ _ _ _ _ _ P1) Q Q').
-  - intros x y Hxy Hx. exact (i_D _ _ _ _ _ _ P1 _ _ (Hpair _ _ Hxy (or_introl Hx))).
+    exact (combine_NoDup_r _ _ _ _ _ (i_nd2 _ _ _ _ P1) Q Q').
+  - intros x y Hxy Hx. exact (i_D _ _ _ _ P1 _ _ (Hpair _ _ Hxy (or_introl Hx))).
 Qed.
 
-Lemma Forall2_flip' {A B} (P : A -> B -> Prop) l1 l2 : Forall2 P l1 l2 -> Forall2 (fun b a => P a b) l2 l1.
-Proof. intros F. induction F; constructor; assumption. Qed.
-
-Lemma iso_sym g1 g2 r1 r2 R : iso g1 g2 r1 r2 R -> iso g2 g1 r2 r1 (fun y x => R x y).
-Proof.
-  intros [Hr Ha Hf Hi]. constructor.
-  - exact Hr.
-  - intros y x Hxy. specialize (Ha x y Hxy). unfold agree in *.
-    destruct (lookup x g1) as [a|], (lookup y g2) as [b|]; try contradiction; [|exact I].
-    destruct Ha as (En & Ec & F). repeat split; [congruence|congruence|apply Forall2_flip', F].
-  - intros y x x' H H' Hy. exact (Hi x x' y H H' Hy).
-  - intros y y' x H H' Hx. exact (Hf x y y' H H' Hx).
-Qed.
-
-Lemma agree_res g1 g2 R x y : agree g1 g2 R x y -> (lookup x g1 <> None <-> lookup y g2 <> None).
-Proof.
-  unfold agree. destruct (lookup x g1), (lookup y g2); intros H; try contradiction; split; intros; congruence.
-Qed.
-
-Lemma fingerprint_sensitive_lemma g1 r1 g2 r2 ts s1 s2 :
-  names_identify g1 r1 \/ names_identify g2 r2 ->
-  fingerprint g1 r1 = Done ts s1 -> fingerprint g2 r2 = Done ts s2 ->
-  exists R, iso g1 g2 r1 r2 R /\
-            (forall x y, R x y -> lookup x g1 <> None -> reach g1 r1 x /\ reach g2 r2 y).
-Proof.
-  intros [N1|N2] E1 E2.
-  - destruct (fingerprint_sensitive_right g2 r2 g1 r1 ts s2 s1 N1 E2 E1) as (R & HI & Hreach).
-    exists (fun x y => R y x). split; [exact (iso_sym _ _ _ _ _ HI)|].
-    intros x y Hxy Hx.
-    assert (Hy : lookup y g2 <> None).
-    { apply (agree_res g2 g1 R y x (iso_agree _ _ _ _ _ HI _ _ Hxy)). exact Hx. }
-    destruct (Hreach y x Hxy Hy) as (A & B). split; assumption.
-  - exact (fingerprint_sensitive_right g1 r1 g2 r2 ts s1 s2 N2 E1 E2).
-Qed.
-
-(** Without [names_identify] the statement is false of the model: a function in progress is denoted by its NAME alone.
-    Target 1 calls 2; 2 and 3 are two different functions that are both called 7 (say, two closures [h]);
+(** Before the placeholder carried the ordinal (function.go before 7738be5) these two graphs had the same fingerprint:
+    target 1 calls 2; 2 and 3 are two different functions that are both called 7 (two closures [h] made by two factories);
     in the first graph 3 calls back 2 (mutual recursion), in the second 3 calls itself. *)
 Definition collide_g1 : graph := [(1, mkFn 10 100 [2]); (2, mkFn 7 200 [3]); (3, mkFn 7 300 [2])].
 Definition collide_g2 : graph := [(1, mkFn 10 100 [2]); (2, mkFn 7 200 [3]); (3, mkFn 7 300 [3])].
-
-Lemma fingerprint_sensitive_refuted_lemma :
-  exists g1 r1 g2 r2 ts s1 s2,
-    fingerprint g1 r1 = Done ts s1 /\ fingerprint g2 r2 = Done ts s2 /\
-    ~ exists R : N -> N -> Prop, R r1 r2 /\ forall x y, R x y -> agree g1 g2 R x y.
-Proof.
-  exists collide_g1, 1, collide_g2, 1.
-  eexists. eexists. eexists. split; [vm_compute; reflexivity|]. split; [vm_compute; reflexivity|].
-  intros (R & Hr & Ha).
-  pose proof (Ha _ _ Hr) as A1. vm_compute in A1. destruct A1 as (_ & _ & F1). inversion F1 as [|? ? ? ? R22 _]; subst.
-  pose proof (Ha _ _ R22) as A2. vm_compute in A2. destruct A2 as (_ & _ & F2). inversion F2 as [|? ? ? ? R33 _]; subst.
-  pose proof (Ha _ _ R33) as A3. vm_compute in A3. destruct A3 as (_ & _ & F3). inversion F3 as [|? ? ? ? R23 _]; subst.
-  pose proof (Ha _ _ R23) as A4. vm_compute in A4. destruct A4 as (_ & Ec & _). discriminate Ec.
-Qed.
-
-(** ** a decidable sufficient condition for [names_identify]: all names in the graph are distinct *)
-Lemma lookup_In_graph (g : graph) x fd : lookup x g = Some fd -> In (x, fd) g.
-Proof.
-  induction g as [|[k v] g IH]; [discriminate|]. cbn [lookup].
-  destruct (N.eqb_spec x k) as [->|Hne]; intros H; [inversion H; left; reflexivity|right; apply IH, H].
-Qed.
-
-Lemma NoDup_map_eq {A B} (h : A -> B) (l : list A) a b :
-  NoDup (map h l) -> In a l -> In b l -> h a = h b -> a = b.
-Proof.
-  induction l as [|c l IH]; intros Hnd Ha Hb E; [destruct Ha|].
-  cbn [map] in Hnd. inversion Hnd as [|? ? Hnin Hnd']; subst.
-  destruct Ha as [->|Ha], Hb as [->|Hb].
-  - reflexivity.
-  - exfalso. apply Hnin. rewrite E. apply in_map, Hb.
-  - exfalso. apply Hnin. rewrite <- E. apply in_map, Ha.
-  - apply IH; assumption.
-Qed.
-
-Lemma distinct_names_identify (g : graph) :
-  NoDup (map (fun kf => f_name (snd kf)) g) -> forall r, names_identify g r.
-Proof.
-  intros Hnd r x y fx fy _ _ Lx Ly E.
-  apply lookup_In_graph in Lx. apply lookup_In_graph in Ly.
-  pose proof (NoDup_map_eq (fun kf : N * fn => f_name (snd kf)) g (x, fx) (y, fy) Hnd Lx Ly E) as H.
-  inversion H; reflexivity.
-Qed.
 
 (** a finite relation given as a list of pairs *)
 Definition rel_of (l : list (N * N)) (x y : N) : Prop := In (x, y) l.
